@@ -12,10 +12,16 @@ RULE = ('each case = a byte stream cut into recv() chunks (plus recv faults: tim
         'called once per chunk.  Observed: exception class leaving driver.run() per call, driver still in _drivers, PONG payloads '
         'written to the socket, the plugin call log, the lines given to feedMsg, connected, inbuffer — all diffed against the '
         'extracted model.  Streams: corpus, structured mostly-valid server traffic, hostile grammar (parse-clean and malformed), '
-        'random bytes / invalid UTF-8, random chunking.  Direct oracle: nothing escapes, driver stays registered, a final '
+        'random bytes / invalid UTF-8, lines whose echoed fields (PING argument with and without ":", JOIN channel, NICK, CAP, 433, '
+        'AUTHENTICATE) carry latin-1 / lone continuation bytes / overlong forms / encoded surrogates / NUL, random chunking; the real '
+        'decode_raw_line runs inside the real _read and the real outbuffer.encode() inside the real _sendIfMsgs.  Direct oracle: nothing escapes, driver stays registered, a final '
         'well-formed PING is answered.  non-trivial = distinct case with at least one complete non-blank line')
-TRUSTED = ['utils.str.decode_raw_line enters the model as a Section variable (any total function bytes->str); the harness passes the '
-           'graph of the real function on the lines of the case; charade is not installed so only the utf-8 strict/replace branches run',
+TRUSTED = ['utils.str.decode_raw_line enters the model as a Section variable (any total function bytes->str); in the run the REAL function '
+           'decodes the real bytes inside SocketDriver._read and the REAL outbuffer.encode() runs in _sendIfMsgs; the model is given the '
+           'graph of the real function on the lines of the case and models the send-side encode as an escape point (surrogates); the '
+           'extractor checks decode_raw_line only uses the error handlers strict/replace; charade is not installed so only the utf-8 '
+           'strict/replace branches run; outgoing messages other than PONG are not in the model (a failure to send them shows as an '
+           'escape in the direct oracle and as a disagreement)',
            'datetime.strptime enters as Section variable vt (the harness evaluates the real strptime on the time tag of each line)',
            'conn.recv outcomes are explicit inputs (data / b"" / socket.timeout / SSLError / socket.error); conn.send accepts everything; '
            'select.select sees an always-readable pipe fd',
@@ -33,7 +39,8 @@ LEVEL_TEXT = ('Coq theorems over an executable exception-flow model of drivers.r
               'arbitrary state-mutating, raising functions: the firewall lets nothing but a BaseException of an Irc handler out of feedMsg; '
               'for every chunking and every recv fault sequence, if every complete line parses the driver stays registered and nothing leaves '
               'driver.run() (refuted outside that domain by the one-line stream ":" — finding F4 — and by a valueless time tag — F3); a PING '
-              'after any parse-clean prefix is answered.  The except-clause lists of _read, drivers.run, log.firewall, feedMsg and the '
+              'after any parse-clean prefix is answered; the domain also says what the send side assumes: every echoed PONG payload is '
+              'encodable (no lone surrogate), which a decode_raw_line restricted to strict/replace guarantees.  The except-clause lists of _read, drivers.run, log.firewall, feedMsg and the '
               '__firewalled__ dictionaries are regenerated from the source on every run; the model is run beside the real driver + Irc.')
 LEVEL_NOTE = ('Trusted: Coq kernel, gen_tables.py/t07.py, extraction + OCaml driver, the Python harness; decode_raw_line, strptime, recv and '
               'handler outcomes are explicit inputs; reconnect is reduced to connected:=False; Python code is modelled, not verified.')
@@ -279,8 +286,13 @@ def run_impl(inp):
     for l in conn.sent.decode('utf-8', 'replace').split('\r\n'):
         if l.startswith('PONG '):
             pongs.append(E['ircmsgs'].IrcMsg(l).args[0] if l != 'PONG :' else '')
+    stuck = []
+    for l in drv.outbuffer.split('\r\n'):
+        if l.startswith('PONG '):
+            stuck.append(E['ircmsgs'].IrcMsg(l).args[0] if l != 'PONG :' else '')
     obs = {'alive': alive, 'crashed': crashed, 'escapes': escapes, 'pongs': pongs, 'log': H.log,
-           'fed': [f[0][:-1] for f in H.fed], 'connected': bool(drv.connected), 'inbuf': drv.inbuffer.decode('latin-1')}
+           'fed': [f[0][:-1] for f in H.fed], 'connected': bool(drv.connected), 'inbuf': drv.inbuffer.decode('latin-1'),
+           'outbuf': stuck}
     # oracle inputs for the model: outcome of the Irc handler stage per feedMsg call
     rows = []
     recon_d = {n for n, st in H.reconn if st == 'dispatch'}
@@ -357,7 +369,8 @@ def wire_dom(inp, op=1):
 
 def dec_model(o):
     return {'alive': bool(o[0]), 'crashed': bool(o[1]), 'escapes': list(o[2]), 'pongs': wire.ls(o[3]),
-            'log': [list(e) for e in o[4]], 'fed': wire.ls(o[5]), 'connected': bool(o[6]), 'inbuf': wire.s(o[7])}
+            'log': [list(e) for e in o[4]], 'fed': wire.ls(o[5]), 'connected': bool(o[6]), 'inbuf': wire.s(o[7]),
+            'outbuf': wire.ls(o[8])}
 
 
 # ---------------------------------------------------------------- direct oracle
@@ -411,8 +424,9 @@ def _dom_info(inp):
 
 
 def malformed_line(inp):
-    """outside the domain of C07_loop_survives_on_domain: some complete line does not parse (extracted predicate dom)"""
-    return not _dom_info(inp)[0]
+    """outside the domain of C07_loop_survives_on_domain because some complete line does not parse (extracted
+    predicate parse_excs; NOT merely `not dom`: an unencodable echo is outside dom too and is not a known finding)"""
+    return len(_dom_info(inp)[1]) > 0
 
 
 def valueless_time(inp):
@@ -511,6 +525,44 @@ def hostile_bytes(rng):
     return bytes(rng.choice(pool) for _ in range(n)).replace(b'\n', b'')
 
 
+# byte strings that are not (clean) UTF-8: latin-1 text, lone continuation bytes, truncated sequences, overlong forms,
+# UTF-8-encoded surrogates (CESU), beyond U+10FFFF, BOM, NUL, C1 controls
+ODD = [b'caf\xe9', b'\xe9', b'\x80', b'\xbf\xbf', b'\xc3', b'\xe2\x82', b'\xf0\x9f\x98', b'\xc0\x80', b'\xc1\xbf', b'\xe0\x80\x80',
+       b'\xf0\x80\x80\x80', b'\xed\xa0\x80', b'\xed\xbf\xbf', b'\xed\xa0\xbd\xed\xb8\x80', b'\xf4\x90\x80\x80', b'\xf8\x88\x80\x80\x80',
+       b'\xff', b'\xfe\xff', b'\xef\xbb\xbf', b'a\x00b', b'\x00', b'\xc2\x85', b'\xa0', b'na\xefve', b'\xc3\xa9\xe9', b'ok\xc3\xa9',
+       b'\xe9\xc3\xa9', b'x\xff y', b'\x81\x8d\x8f\x90\x9d', b'\xdc\x80']
+
+
+def odd(rng):
+    return b''.join(rng.choice(ODD + [b'a', b'Z', b'-']) for _ in range(rng.randint(1, 3)))
+
+
+def echo_line(rng):
+    """a line one of whose fields the bot sends back (or stores and later sends), the field carrying odd bytes"""
+    o = odd(rng)
+    k = rng.randrange(14)
+    if k < 5:
+        pfx = rng.choice([b'', b'', b':irc.srv ', b':' + odd(rng).replace(b' ', b'') + b' '])
+        return pfx + rng.choice([b'PING :', b'PING ', b'ping :', b'PiNg ']) + o
+    if k == 5:
+        return b'PING ' + o.replace(b' ', b'') + b' :' + odd(rng)
+    if k == 6:
+        return b':test!u@h JOIN #' + o.replace(b' ', b'')                  # bot asks MODE/WHO for the channel
+    if k == 7:
+        return b':test!u@h NICK :' + o.replace(b' ', b'')                  # own nick now carries the bytes
+    if k == 8:
+        return b':irc.srv 433 * ' + o.replace(b' ', b'') + b' :Nickname is already in use.'
+    if k == 9:
+        return b':irc.srv CAP * LS :' + o + b' sasl=' + o.replace(b' ', b'') + b' multi-prefix'
+    if k == 10:
+        return b':irc.srv CAP * ACK :' + o
+    if k == 11:
+        return b'AUTHENTICATE ' + o
+    if k == 12:
+        return b':irc.srv 001 ' + o.replace(b' ', b'') + b' :Welcome ' + o
+    return b':' + o.replace(b' ', b'') + b'!u@h PRIVMSG test :\x01VERSION\x01'
+
+
 def mutate(rng, l):
     k = rng.random()
     if k < 0.3:
@@ -545,6 +597,11 @@ CORPUS = [
     {'chunks': [['d', 'PRIVMSG #c :x\r\nPING :c\r\n']], 'final_ping': 'c', 'addmsg': [],
      'cbs': [{'in': [], 'call': [[0, 1, 0]], 'out': [0, 0]}]},
     {'chunks': [['d', '\xff\xfe PING \xc3\x28\r\n\x85\x1c\r\n\xa0\r\nPING :c\r\n']], 'cbs': [], 'addmsg': [], 'final_ping': 'c'},
+    # invalid UTF-8 in a field the bot echoes (PING argument -> PONG): decode in _read, encode in _sendIfMsgs
+    {'chunks': [['d', 'PING :caf\xe9\r\n'], ['d', 'PING :c\r\n']], 'cbs': [], 'addmsg': [], 'final_ping': 'c'},
+    {'chunks': [['d', 'PING \x80\r\nPING :\xed\xa0\x80\r\nPING :\xc0\x80 \xf4\x90\x80\x80\r\n:\xff PING a\x00b\r\n'], ['d', 'PING :c\r\n']],
+     'cbs': [], 'addmsg': [], 'final_ping': 'c'},
+    {'chunks': [['d', ':test!u@h JOIN #caf\xe9\r\n:test!u@h NICK :\xe9\r\n'], ['d', 'PING :c\r\n']], 'cbs': [], 'addmsg': [], 'final_ping': 'c'},
 ]
 
 
@@ -589,6 +646,12 @@ def gen_cases(ctx):
     for _ in range(ctx.n(400)):
         ls = [hostile_bytes(rng) if rng.random() < 0.7 else rng.choice(VALID) for _ in range(rng.randint(1, 6))]
         cases.append(('raw-bytes', mk_case(rng, ls)))
+    for o in ODD:
+        for head in (b'PING :', b'PING ', b':s PING x :'):
+            cases.append(('echo-single', mk_case(rng, [head + o], heavy=False, faults=False)))
+    for _ in range(ctx.n(500)):
+        ls = [echo_line(rng) if rng.random() < 0.7 else rng.choice(VALID + ABSURD) for _ in range(rng.randint(1, 6))]
+        cases.append(('echo-bytes', mk_case(rng, ls, heavy=rng.random() < 0.5)))
     for _ in range(ctx.n(300)):
         ls = [''.join(rng.choice(ALPHA) for _ in range(rng.randint(1, 5))) for _ in range(rng.randint(1, 6))]
         cases.append(('short-alphabet', mk_case(rng, ls, heavy=False)))
